@@ -231,6 +231,10 @@ impl SState {
 pub struct STx {
     pub view: SState,
     pub writes: Vec<W>,
+    /// commit sequence number current when the transaction began
+    pub begin_seq: u64,
+    /// existing entities this transaction modified: (is_edge, slot)
+    pub ents: BTreeSet<(bool, usize)>,
 }
 
 #[derive(Clone, Debug, Default)]
@@ -239,6 +243,9 @@ pub struct Spec {
     pub txs: Vec<Option<STx>>,
     /// writes of transactions that were rolled back / dropped (for anomaly classification)
     pub discarded: Vec<W>,
+    pub commit_seq: u64,
+    /// (commit sequence number, entities modified) of committed transactions
+    pub commit_log: Vec<(u64, BTreeSet<(bool, usize)>)>,
 }
 
 impl Spec {
@@ -251,10 +258,49 @@ impl Spec {
     fn write(&mut self, s: Option<usize>, w: W) {
         match s.and_then(|s| self.txs.get_mut(s)).and_then(|t| t.as_mut()) {
             Some(tx) => {
+                match &w {
+                    W::SetProp(n, ..) | W::RemoveProp(n, _) | W::AddLabel(n, _) | W::RemoveLabel(n, _) if tx.view.nodes.contains_key(n) => {
+                        tx.ents.insert((false, *n));
+                    }
+                    W::DetachDelete(n) if tx.view.nodes.contains_key(n) => {
+                        tx.ents.insert((false, *n));
+                        let inc: Vec<usize> = tx.view.edges.iter().filter(|(_, x)| x.src == *n || x.dst == *n).map(|(e, _)| *e).collect();
+                        for e in inc {
+                            tx.ents.insert((true, e));
+                        }
+                    }
+                    W::SetEdgeProp(e, _) | W::DeleteEdge(e) if tx.view.edges.contains_key(e) => {
+                        tx.ents.insert((true, *e));
+                    }
+                    _ => {}
+                }
                 tx.view.apply(&w);
                 tx.writes.push(w);
             }
-            None => self.cur.apply(&w),
+            None => {
+                // an auto-commit statement is a transaction of its own
+                let mut ents = BTreeSet::new();
+                match &w {
+                    W::SetProp(n, ..) | W::RemoveProp(n, _) | W::AddLabel(n, _) | W::RemoveLabel(n, _) | W::DetachDelete(n) if self.cur.nodes.contains_key(n) => {
+                        ents.insert((false, *n));
+                        if let W::DetachDelete(_) = &w {
+                            for (e, x) in &self.cur.edges {
+                                if x.src == *n || x.dst == *n {
+                                    ents.insert((true, *e));
+                                }
+                            }
+                        }
+                    }
+                    W::SetEdgeProp(e, _) | W::DeleteEdge(e) if self.cur.edges.contains_key(e) => {
+                        ents.insert((true, *e));
+                    }
+                    _ => {}
+                }
+                self.commit_seq += 1;
+                let seq = self.commit_seq;
+                self.commit_log.push((seq, ents));
+                self.cur.apply(&w)
+            }
         }
     }
 }
@@ -768,16 +814,27 @@ pub fn spec_apply(spec: &mut Spec, op: &HOp, new_slot: usize, st: Option<usize>)
             if spec.txs[*s].is_some() {
                 expected = vec!["err".into()];
             } else {
-                spec.txs[*s] = Some(STx { view: spec.cur.clone(), writes: Vec::new() });
+                spec.txs[*s] = Some(STx { view: spec.cur.clone(), writes: Vec::new(), begin_seq: spec.commit_seq, ents: BTreeSet::new() });
             }
         }
         HOp::Commit(s) => match spec.txs[*s].take() {
             None => expected = vec!["err".into()],
             Some(tx) => {
-                for w in &tx.writes {
-                    spec.cur.apply(w);
+                // first committer wins: refused if a transaction that committed after this
+                // one began modified one of the same entities
+                let conflict = spec.commit_log.iter().any(|(seq, ents)| *seq > tx.begin_seq && ents.iter().any(|e| tx.ents.contains(e)));
+                if conflict {
+                    expected = vec!["err:write-conflict".into()];
+                    spec.discarded.extend(tx.writes);
+                    ended = Some(("failed-commit", *s));
+                } else {
+                    for w in &tx.writes {
+                        spec.cur.apply(w);
+                    }
+                    spec.commit_seq += 1;
+                    spec.commit_log.push((spec.commit_seq, tx.ents));
+                    ended = Some(("commit", *s));
                 }
-                ended = Some(("commit", *s));
             }
         },
         HOp::Rollback(s) => match spec.txs[*s].take() {
@@ -896,7 +953,7 @@ pub fn exec(cfg: &Config, ops: &[HOp]) -> ExecResult {
     let n = cfg.sessions;
     let mut real = real::Sys::new(n);
     let mut pin = pin::Sys::new(n);
-    let mut spec = Spec { cur: SState::default(), txs: vec![None; n], discarded: Vec::new() };
+    let mut spec = Spec { cur: SState::default(), txs: vec![None; n], discarded: Vec::new(), commit_seq: 0, commit_log: Vec::new() };
     let mut findings: Vec<(String, String)> = Vec::new();
     let mut probes: BTreeMap<&'static str, u64> = BTreeMap::new();
     let mut log: Vec<String> = Vec::new();
@@ -1067,6 +1124,8 @@ struct Gen<'a> {
     locked_n: BTreeMap<usize, usize>,
     locked_e: BTreeMap<usize, usize>,
     ops: Vec<HOp>,
+    /// C03 mode: no write locks, so overlapping transactions do write the same entity
+    allow_conflicts: bool,
 }
 
 impl Gen<'_> {
@@ -1074,10 +1133,14 @@ impl Gen<'_> {
         if self.spec.txs[s].is_some() { Some(s) } else { None }
     }
     fn free_nodes(&self, s: usize) -> Vec<usize> {
-        self.spec.view(self.st(s)).nodes.keys().copied().filter(|n| self.locked_n.get(n).is_none_or(|o| *o == s)).collect()
+        let free = self.allow_conflicts;
+        self.spec.view(self.st(s)).nodes.keys().copied().filter(|n| free || self.locked_n.get(n).is_none_or(|o| *o == s)).collect()
     }
     fn free_edges(&self, s: usize) -> Vec<usize> {
         let v = self.spec.view(self.st(s));
+        if self.allow_conflicts {
+            return v.edges.keys().copied().collect();
+        }
         v.edges
             .iter()
             .filter(|(e, x)| self.locked_e.get(e).is_none_or(|o| *o == s) && self.locked_n.get(&x.src).is_none_or(|o| *o == s) && self.locked_n.get(&x.dst).is_none_or(|o| *o == s))
@@ -1211,8 +1274,11 @@ pub fn generate(rng: &mut Prng, property: &str, thorough: bool) -> (Config, Vec<
     if !kinds.iter().any(|k| *k <= 2) {
         kinds.push(rng.usize(3)); // some way to make nodes
     }
+    if property == "C03" {
+        kinds = vec![5, 5, 6, 7, 8, 9, 10, 1];
+    }
     let rollback_w = if rng.chance(1, 3) { 0 } else { rng.range(1, 3) };
-    let mut g = Gen { rng, spec: Spec { cur: SState::default(), txs: vec![None; sessions], discarded: vec![] }, n_slots: 0, e_slots: 0, uniq: 0, locked_n: BTreeMap::new(), locked_e: BTreeMap::new(), ops: Vec::new() };
+    let mut g = Gen { rng, spec: Spec { cur: SState::default(), txs: vec![None; sessions], discarded: vec![], commit_seq: 0, commit_log: vec![] }, n_slots: 0, e_slots: 0, uniq: 0, locked_n: BTreeMap::new(), locked_e: BTreeMap::new(), ops: Vec::new(), allow_conflicts: property == "C03" };
     // a little committed data to start from
     for _ in 0..g.rng.range(0, 3) {
         let k = *g.rng.pick(&[0usize, 1, 2]);
